@@ -204,6 +204,22 @@ class Repo:
                                 nx.value = st.value
                                 del b[i]
                                 continue
+                            # an explaining variable for the very next test: `c = <expr>` / `if c:` (c used nowhere else)
+                            if isinstance(tg, ast.Name) and uses.get(tg.id) == 2 and isinstance(nx, ast.If) and not isinstance(st.value, (ast.Yield, ast.YieldFrom, ast.Await, ast.NamedExpr)):
+                                hit = [(p_, f_, idx) for p_ in ast.walk(nx.test) for f_, v_ in ast.iter_fields(p_)
+                                       for idx, x_ in (enumerate(v_) if isinstance(v_, list) else [(None, v_)]) if isinstance(x_, ast.Name) and x_.id == tg.id and isinstance(x_.ctx, ast.Load)]
+                                if isinstance(nx.test, ast.Name) and nx.test.id == tg.id:
+                                    nx.test = st.value
+                                    del b[i]
+                                    continue
+                                if len(hit) == 1:
+                                    p_, f_, idx = hit[0]
+                                    if idx is None:
+                                        setattr(p_, f_, st.value)
+                                    else:
+                                        getattr(p_, f_)[idx] = st.value
+                                    del b[i]
+                                    continue
                             i += 1
 
     # ---------------------------------------------------- constant inlining
